@@ -411,5 +411,22 @@ theorem noop_aliases (ce : CtorEnv) :
   simp only [List.mem_cons, List.mem_nil_iff, or_false] at h
   rcases h with rfl | rfl | rfl | rfl | rfl <;> rfl
 
+
+/-! ### longitudes are angles -/
+
+/-- **tmerc (and utm) forward: the longitude is an angle** — the same meridian written any number
+of turns further east or west gives the same result, refusal included (the longitude enters through
+the sine and cosine of its difference to `lon_0` only, never through its magnitude) -/
+theorem tmerc_longitude_is_an_angle (q : Tmerc.Pre ℝ) (lon lat : ℝ) (k : ℤ) :
+    Tmerc.fwd q (lon + k * (2 * Real.pi)) lat = Tmerc.fwd q lon lat := by
+  have hs : Real.sin (lon + k * (2 * Real.pi) - q.lon0) = Real.sin (lon - q.lon0) := by
+    rw [show lon + k * (2 * Real.pi) - q.lon0 = (lon - q.lon0) + k * (2 * Real.pi) by ring]
+    exact Real.sin_add_int_mul_two_pi _ _
+  have hc : Real.cos (lon + k * (2 * Real.pi) - q.lon0) = Real.cos (lon - q.lon0) := by
+    rw [show lon + k * (2 * Real.pi) - q.lon0 = (lon - q.lon0) + k * (2 * Real.pi) by ring]
+    exact Real.cos_add_int_mul_two_pi _ _
+  unfold Tmerc.fwd
+  simp only [scalar_sin, scalar_cos, hs, hc]
+
 end C13
 end Geodesy
